@@ -48,6 +48,21 @@ def _pool(test, rule, nontriv, quick=12000, thorough=150000, extra_assume=None):
 
 
 PROPS.update({
+    "C18": dict(kind="leaf", module="spanner_prober",
+                files={"leaf/spanner_prober/verif_export.go": "prober/zz_verif_export.go", "leaf/spanner_prober/prober_verif_test.go": "prober/zz_verif_test.go",
+                       "leaf/spanner_prober/main_verif_test.go": "zz_verif_main_test.go"},
+                tests=[("./prober", "TestC18Prober"), (".", "TestC18Flags")],
+                quick=dict(checks=30000, shards=2, timeout=900),
+                thorough=dict(checks=400000, shards=16, timeout=3000, fuzz=[("./prober", "FuzzT4T7", 45), (".", "FuzzFlags", 45)]),
+                rule="in-package tests compiled in a scratch copy of spanner_prober. Backoff: (base,max,retries...) with 0<=base<=max over the whole int64 range (classes: small, <1h, around 2^53 ns, "
+                     "near MaxInt64, uniform), increasing retry counts up to 2^62 (huge counts only for base>0), oracle base<=b<=max and non-decreasing. GFE latency: header/trailer metadata pairs "
+                     "(present/absent/empty lists, 0-4 entries from a pool of 20 well- and ill-formed entries plus random values) against a reference parser written from the statement; no panic. "
+                     "Flags: project/instance/database/config strings (valid alphabet, empty, hostile strings with / .. newline unicode NUL, valid names with one hostile character spliced in), qps from "
+                     "a pool incl. 0, negatives, NaN, +-Inf, denormals, 1e-10 boundary, 1000.0001 and arbitrary float64; for every accepted set: probe type parses, probe interval > 0, every derived "
+                     "resource name splits on '/' into exactly the expected segments. Payload sizes 1..2^20: length and SHA-256. Non-trivial = backoff case with >=2 retry counts and base>0, "
+                     "header case with >=2 entries, accepted flag set; distinct = FNV-1a of the canonical JSON of the case. Thorough adds native fuzzing of header values and flag strings.",
+                assume=["library helpers compiled with the default go toolchain in a scratch copy of the module; unexported helpers reached through an in-package test and a build-tag guarded export file",
+                        "backoff is checked for 0 <= base <= max (every caller passes positive constants)", "a search, not a proof"]),
     "C17": dict(kind="harness", parts=[dict(pkg="./cfg", test="TestC17", replay_key="text"), dict(pkg="./poolsim", test="TestC17Pool", replay_key="ops")],
                 quick=dict(checks=15000, shards=4, timeout=600),
                 thorough=dict(checks=200000, shards=16, timeout=3000, fuzz=("FuzzC17", 90)),
@@ -205,7 +220,98 @@ class Runner:
                 return part
         return parts[0]
 
+    # ---- leaf modules (package main / unexported helpers): scratch copy outside /repo and /verif -------------
+    def run_leaf(self):
+        import re as _re
+        t = dict(self.spec[self.tier])
+        shutil.rmtree(self.bdir, ignore_errors=True)
+        os.makedirs(self.bdir)
+        os.makedirs(os.path.join(self.here, "evidence"), exist_ok=True)
+        os.makedirs(os.path.join(self.here, "replays"), exist_ok=True)
+        mod = self.spec["module"]
+        src = os.path.join(self.repo, mod)
+        scratch = tempfile.mkdtemp(prefix="verif_leaf_")
+        try:
+            for root, dirs, files in os.walk(src):
+                rel = os.path.relpath(root, src)
+                for f in files:
+                    if f.endswith((".go", ".mod", ".sum", ".json", ".proto")) and not f.endswith("_test.go"):
+                        os.makedirs(os.path.join(scratch, rel), exist_ok=True)
+                        shutil.copy(os.path.join(root, f), os.path.join(scratch, rel, f))
+            gm = open(os.path.join(scratch, "go.mod")).read()
+            modpath = _re.search(r"^module\s+(\S+)", gm, _re.M).group(1)
+            gm += "\nrequire pgregory.net/rapid v1.3.0\n"
+            open(os.path.join(scratch, "go.mod"), "w").write(gm)
+            hs = [l for l in open(os.path.join(self.here, "harness", "go.sum")) if l.startswith("pgregory.net/rapid ")]
+            open(os.path.join(scratch, "go.sum"), "a").writelines(hs)
+            os.makedirs(os.path.join(scratch, "verifhx"))
+            shutil.copy(os.path.join(self.here, "harness", "hx", "hx.go"), os.path.join(scratch, "verifhx", "hx.go"))
+            for srcf, dst in self.spec["files"].items():
+                txt = open(os.path.join(self.here, srcf)).read().replace('"VERIFHX_IMPORT"', 'hx "%s/verifhx"' % modpath)
+                os.makedirs(os.path.dirname(os.path.join(scratch, dst)) or scratch, exist_ok=True)
+                open(os.path.join(scratch, dst), "w").write(txt)
+            env = self.env(t.get("env"))
+            env["GOFLAGS"] = "-mod=mod"
+            bins = {}
+            for pkg, test in self.spec["tests"]:
+                if pkg in bins:
+                    continue
+                out = os.path.join(self.bdir, "t_%s.bin" % (pkg.strip("./").replace("/", "_") or "root"))
+                r = subprocess.run(["go", "test", "-c", "-tags", "verif", "-vet=off", "-o", out, pkg], cwd=scratch, env=env, capture_output=True, text=True)
+                if r.returncode != 0 or not os.path.exists(out):
+                    sys.stdout.write(r.stdout + r.stderr)
+                    print("INCONCLUSIVE property=%s: build failed (tree %s)" % (self.prop, self.repo))
+                    return 2
+                bins[pkg] = out
+            shards = t.get("shards", 1)
+            tests = self.spec["tests"]
+            if self.replay:
+                shards = len(tests)
+            procs, results = [], {}
+            for i in range(shards):
+                pkg, test = tests[i % len(tests)]
+                e = dict(env)
+                e.update(VERIF_STATS=os.path.join(self.bdir, "stats.%d.json" % i), VERIF_REPLAY_OUT=os.path.join(self.bdir, "replay.%d.json" % i), VERIF_SHARD=str(i), VERIF_SHARDS=str(shards))
+                if self.replay:
+                    e["VERIF_REPLAY_IN"] = os.path.abspath(self.replay)
+                cmd = [bins[pkg], "-test.run", "^%s$" % test, "-test.timeout", "%ds" % t["timeout"], "-test.v", "-rapid.checks", str(t["checks"]),
+                       "-rapid.seed", str(rapid_seed(self.seed, i)), "-rapid.nofailfile"]
+                log = open(os.path.join(self.bdir, "log.%d.txt" % i), "w")
+                procs.append((i, subprocess.Popen(cmd, cwd=self.bdir, env=e, stdout=log, stderr=subprocess.STDOUT), log))
+            for i, p, log in procs:
+                try:
+                    rc = p.wait(timeout=t["timeout"] + 60)
+                except subprocess.TimeoutExpired:
+                    p.kill()
+                    rc = -999
+                log.close()
+                results[i] = rc
+            self.fuzz_execs = None
+            if t.get("fuzz") and not self.replay and all(rc == 0 for rc in results.values()):
+                total = 0
+                for pkg, name, secs in t["fuzz"]:
+                    i = len(results)
+                    e = dict(env)
+                    e.update(VERIF_STATS=os.path.join(self.bdir, "stats.%d.json" % i), VERIF_REPLAY_OUT=os.path.join(self.bdir, "replay.%d.json" % i))
+                    log = open(os.path.join(self.bdir, "log.%d.txt" % i), "w")
+                    cmd = [bins[pkg], "-test.run", "^$", "-test.fuzz", "^%s$" % name, "-test.fuzztime", "%ds" % secs, "-test.fuzzcachedir", os.path.join(self.bdir, "fuzzcache"),
+                           "-test.parallel", str(NCPU)]
+                    try:
+                        rc = subprocess.run(cmd, cwd=self.bdir, env=e, stdout=log, stderr=subprocess.STDOUT, timeout=secs + 300).returncode
+                    except subprocess.TimeoutExpired:
+                        rc = 0
+                    log.close()
+                    m = _re.findall(r"execs: (\d+)", open(os.path.join(self.bdir, "log.%d.txt" % i), errors="replace").read())
+                    total += int(m[-1]) if m else 0
+                    results[i] = rc
+                self.fuzz_execs = total
+            return self.conclude(results, t)
+        finally:
+            shutil.rmtree(scratch, ignore_errors=True)
+
     def run(self):
+        if self.spec.get("kind") == "leaf":
+            return self.run_leaf()
         err = self.prepare() or self.compile()
         if err:
             print("INCONCLUSIVE property=%s: %s (tree %s)" % (self.prop, err, self.repo))
